@@ -97,6 +97,10 @@ func c17Run(raw []byte) (*Line, error) {
 		//           then Min, Max, Base assigned
 		//   Hist 2: SetClamp(true), Map, Ticks with other options, CountTicks, SetClamp(false)
 		//   Hist 3: Ticks twice with other options, TicksAtLevel, then the observed calls
+		//   Hist 4: constructed with the target domain but ANOTHER base, used with the observed
+		//           options (Ticks, CountTicks, TicksAtLevel), then only Base assigned
+		//   Hist 5: constructed with the target, Ticks(o), Min/Max assigned to another domain,
+		//           Ticks(o), Min/Max assigned back (a result remembered per options would show)
 		var ticksO func(o scale.TickOptions) ([]float64, []float64)
 		var count func(level int) int
 		var at func(level int) []float64
@@ -111,6 +115,12 @@ func c17Run(raw []byte) (*Line, error) {
 				imn, imx = 3, 5e6
 			}
 			if c.Base == 10 {
+				ibase = 2
+			}
+		}
+		if c.Hist == 4 {
+			ibase = 10
+			if c.Base == 10 || c.Base == 0 {
 				ibase = 2
 			}
 		}
@@ -156,6 +166,18 @@ func c17Run(raw []byte) (*Line, error) {
 			setClamp(false)
 		case 3:
 			catch(func() { ticksO(o2); ticksO(scale.TickOptions{Max: 1}); at(3) })
+		case 4:
+			catch(func() { ticksO(o); count(0); at(1) })
+			assign(mn, mx, c.Base)
+		case 5:
+			catch(func() { ticksO(o) })
+			if c.K == 2 && mn < 0 {
+				assign(-7e4, -0.3, c.Base)
+			} else {
+				assign(0.3, 7e4, c.Base)
+			}
+			catch(func() { ticksO(o) })
+			assign(mn, mx, c.Base)
 		}
 		ticks := func() ([]float64, []float64) { return ticksO(o) }
 		nice := func() (float64, float64) { return niceO(o) }
@@ -312,6 +334,12 @@ func c17LinearCase(rng *rand.Rand) c17Case {
 	case 2: // decimal fractions
 		mn = float64(rng.Intn(2001)-1000) / 100
 		mx = mn + float64(1+rng.Intn(1000))/100
+		switch rng.Intn(6) { // one end exactly 0
+		case 0:
+			mn, mx = 0, mx-mn
+		case 1:
+			mn, mx = mn-mx, 0
+		}
 	default: // width 1e-9..1e9, |centre|/width <= 1e3
 		w := logUniform(rng, 1e-9, 1e9)
 		c := (rng.Float64()*2 - 1) * w * math.Pow(10, rng.Float64()*3)
@@ -352,7 +380,7 @@ func c17LinearCase(rng *rand.Rand) c17Case {
 	}
 	c.Min, c.Max = F64(mn), F64(mx)
 	if rng.Intn(2) == 0 {
-		c.Hist = 1 + rng.Intn(3)
+		c.Hist = 1 + rng.Intn(5)
 	}
 	return c
 }
@@ -411,7 +439,7 @@ func c17LogCase(rng *rand.Rand) c17Case {
 	}
 	c := c17Case{K: 2, Base: b, Min: F64(mn), Max: F64(mx), O: c17Opt(rng, 1, 3)}
 	if rng.Intn(2) == 0 {
-		c.Hist = 1 + rng.Intn(3)
+		c.Hist = 1 + rng.Intn(5)
 	}
 	if c.O.MinLevel != 0 || c.O.MaxLevel != 0 { // level limits: around the levels Log scales use
 		c.O.MinLevel = rng.Intn(5) - 1
